@@ -1,5 +1,6 @@
 import Driver.Common
 import Cppcheck.Model.Exec
+import Cppcheck.Gen.C15Keys
 open Cppcheck.Wire Cppcheck.Serialize Cppcheck.Exec
 
 /-
@@ -7,7 +8,7 @@ Line protocol (one op per line; see harness/c15.cpp for the implementation side)
   MSG   = id sev cwe hash remark file0 inc short verbose symbols n {line col file orig info}*n   (strings hex)
   SUPPR = errorId fileName line symbol polyspace column checked matched extraComment inline type lineBegin lineEnd macroName hash thisAndNext
   ser MSG | des <hex> | fix <hex> | pl <hex> | senc SUPPR | pw <type> <hex> | pwmsg MSG | wsup <n> SUPPR* |
-  hr <emitdup> <ids> <hex> | htl <emitdup> <ids> <n> MSG*
+  hr <flags> <ids> <hex> | htl <flags> <ids> <n> MSG*      (flags: 1 = --emit-duplicates, 2 = templateLocation {line}:{info})
   sched <kind t|p> <jobs> <seed> <ids> <nfiles> {<nmsg> MSG*}*      run the executor model under a pseudo-random schedule
   lg <tmpl 0|1|2> <jobs> <seed> <nglob> {<idhex> <filehex> <line>}* <nfiles> {<nraw> {MSG <locSup> <noFail>}*}*
         the whole pipeline (per-file logger, gate, sink) of the three executor models on given logger inputs:
@@ -87,10 +88,17 @@ def idsOf (s : String) : Option (List (Str × Option Int)) :=
       | _, _ => none
     | _ => none
 
-def cfgOf (emitdup : Bool) (ids : List (Str × Option Int)) : Cfg :=
+/-- flags: bit 0 = --emit-duplicates, bit 1 = templateLocation `{line}:{info}` (else empty); templateFormat is `{id}`.
+    The keys are the `toString` calls of the source (`Gen.C15Keys`) on the template model `renderIdLoc`. -/
+def cfgOf (flags : Nat) (ids : List (Str × Option Int)) : Cfg :=
   let sup : SView → Bool := fun v => ids.any fun p => p.1 == v.errorId && (match p.2 with | none => true | some l => l == v.line)
-  { key := fun m => m.id, key2 := fun m => m.id, supG := sup, supGX := sup,
-    critical := fun _ => false, emitDuplicates := emitdup, simp := id }
+  let base : Cfg :=
+    { key := fun m => m.id, keyGate := fun m => m.id, key2 := fun m => m.id, supG := sup, supGX := sup,
+      critical := fun _ => false, emitDuplicates := flags % 2 == 1, simp := id }
+  let r : RenderCfg :=
+    { render := renderIdLoc, verbose := false, templateFormat := "{id}".toList,
+      templateLocation := if flags / 2 % 2 == 1 then "{line}:{info}".toList else [] }
+  base.withKeys r Gen.loggerKeyArgs Gen.gateKeyArgs Gen.sinkKeyArgs
 
 /-- events of handleRead called until it returns false -/
 def hrLoop (cfg : Cfg) : Nat → Parent → Str → List String → String
@@ -242,12 +250,12 @@ def step (line : String) : String :=
     | none => "bad-op"
   | ["hr", ed, ids, h] =>
     match idsOf ids, fromHex h with
-    | some ids, some bytes => hrLoop (cfgOf (ed != "0") ids) (bytes.length + 2) {} bytes []
+    | some ids, some bytes => hrLoop (cfgOf (ed.toNat?.getD 0) ids) (bytes.length + 2) {} bytes []
     | _, _ => "bad-op"
   | "htl" :: ed :: ids :: n :: rest =>
     match idsOf ids, n.toNat? with
     | some ids, some n => match (prep pmsg n).run rest with
-      | some (ms, []) => "H " ++ htlGo (cfgOf (ed != "0") ids) [] ms
+      | some (ms, []) => "H " ++ htlGo (cfgOf (ed.toNat?.getD 0) ids) [] ms
       | _ => "bad-op"
     | _, _ => "bad-op"
   | "lg" :: tk :: jobs :: seed :: ng :: rest =>
@@ -256,7 +264,7 @@ def step (line : String) : String :=
       match (do let g ← prep pview ng; let nf ← pnat; let fs ← prawfiles nf; pure (g, fs)).run rest with
       | some ((g, fs), []) =>
         let cfg : Cfg :=
-          { key := keyOf tk, key2 := keyOf tk, supG := fun v => g.contains (v.errorId, v.file, v.line),
+          { key := keyOf tk, keyGate := keyOf tk, key2 := keyOf tk, supG := fun v => g.contains (v.errorId, v.file, v.line),
             supGX := fun v => g.contains (v.errorId, v.file, v.line), critical := fun _ => false, dedupFix := dedupFixApplied, simp := id }
         let raws : Nat → List Raw := fun i => fs.getD i []
         let files := List.range fs.length
@@ -277,7 +285,7 @@ def step (line : String) : String :=
     | some jobs, some seed, some ids, some nf =>
       match (pfiles nf).run rest with
       | some (fs, []) =>
-        let cfg := cfgOf false ids
+        let cfg := cfgOf 0 ids
         let raws : Nat → List Raw := fun i => (fs.getD i []).map fun m => { msg := m }
         let files := List.range fs.length
         let single := runSingle cfg raws files
